@@ -224,7 +224,10 @@ func sesRun(t *testing.T, lines []string) []string {
 			case "react": // ses react <event> <send|close0|close1>
 				w.reacts[f[2]] = append(w.reacts[f[2]], f[3])
 			case "hs": // ses hs <transport> <eio> <b64> <j|->
-				q := "transport=" + f[2] + "&EIO=" + f[3]
+				q := "transport=" + f[2]
+				if f[3] != "-" {
+					q += "&EIO=" + f[3]
+				}
 				if f[4] == "1" {
 					q += "&b64=1"
 				}
@@ -330,6 +333,11 @@ func sesRun(t *testing.T, lines []string) []string {
 			if f[1] == "shutdown" {
 				// server.Close ranges over a map: canonical order by session, then by request
 				sort.SliceStable(parts, func(i, j int) bool { return shutdownKey(parts[i]) < shutdownKey(parts[j]) })
+			}
+			if f[1] == "adv" {
+				// timers of different sessions due at the same instant fire in an order the runtime
+				// picks: canonical order by instant, then by session (each session's own order kept)
+				sort.SliceStable(parts, func(i, j int) bool { return advKey(parts[i]) < advKey(parts[j]) })
 			}
 			for i := 0; i < len(w.reqs); i++ {
 				h := w.reqs[i]
@@ -454,6 +462,16 @@ func shutdownKey(tok string) int {
 		return 1<<20 + num(p[len(p)-1])
 	}
 	return 1 << 30
+}
+
+// advKey: the instant of an event, then its shutdownKey.
+func advKey(tok string) int {
+	p := strings.Split(tok, ":")
+	ms := 0
+	if len(p) > 1 {
+		ms, _ = strconv.Atoi(p[1])
+	}
+	return ms<<31 + shutdownKey(tok)
 }
 
 func strOr(s, d string) string {
